@@ -209,15 +209,12 @@ example :
 
 /-! ### nesting -/
 
-/-- top-level values read through `PDFStreamParser.nextobject`: everything but a bare `n g R` -/
-def notRef : PObj → Prop
-  | .ref _ _ => False
-  | _ => True
-
-/-- Arrays and dictionaries nested to ANY depth: feeding the token sequence of a tree to the stack
-    parser yields exactly that tree (null-valued dictionary entries absent), nothing else, no error. -/
-theorem C01_nesting (v : PObj) (hc : clean v) (hr : notRef v) :
-    feedAll {} (ser v) = { results := [norm v] } := by
+/-- Arrays and dictionaries nested to ANY depth, and a bare `n g R`: feeding the token sequence of a tree
+    to the stack parser (PDFStreamParser: `flush` holds back up to two trailing integers, `nextobject`
+    hands them out at PSEOF = `finish`) yields exactly that tree (null-valued dictionary entries
+    absent), nothing else, no error. -/
+theorem C01_nesting (v : PObj) (hc : clean v) :
+    finish (feedAll {} (ser v)) = { results := [norm v] } := by
   have hD := good_stream
   unfold feedAll
   cases v with
@@ -229,14 +226,25 @@ theorem C01_nesting (v : PObj) (hc : clean v) (hr : notRef v) :
     have e5 : (StackParser.kwNull == [123]) = false := by decide
     have e6 : (StackParser.kwNull == [125]) = false := by decide
     have hn : doKeyword {} StackParser.kwNull = push {} .null := hD.null {}
-    simp [ser, feedAllWith_cons, feedAllWith_nil, feedWith, e1, e2, e3, e4, e5, e6, hn, push, norm, streamDialect]
-  | bool b => simp [ser, feedAllWith_cons, feedAllWith_nil, feedWith, push, norm, streamDialect]
-  | int i => simp [ser, feedAllWith_cons, feedAllWith_nil, feedWith, push, norm, streamDialect]
-  | real t => simp [ser, feedAllWith_cons, feedAllWith_nil, feedWith, push, norm, streamDialect]
-  | str s => simp [ser, feedAllWith_cons, feedAllWith_nil, feedWith, push, norm, streamDialect]
-  | lit n => simp [ser, feedAllWith_cons, feedAllWith_nil, feedWith, push, norm, streamDialect]
+    simp [ser, feedAllWith_cons, feedAllWith_nil, feedWith, e1, e2, e3, e4, e5, e6, hn, push, norm, streamDialect,
+      flushHold, heldCount, finish]
+  | bool b => simp [ser, feedAllWith_cons, feedAllWith_nil, feedWith, push, norm, streamDialect, flushHold, heldCount, finish]
+  | int i => simp [ser, feedAllWith_cons, feedAllWith_nil, feedWith, push, norm, streamDialect, flushHold, heldCount, finish]
+  | real t => simp [ser, feedAllWith_cons, feedAllWith_nil, feedWith, push, norm, streamDialect, flushHold, heldCount, finish]
+  | str s => simp [ser, feedAllWith_cons, feedAllWith_nil, feedWith, push, norm, streamDialect, flushHold, heldCount, finish]
+  | lit n => simp [ser, feedAllWith_cons, feedAllWith_nil, feedWith, push, norm, streamDialect, flushHold, heldCount, finish]
   | kwd n => simp [clean] at hc
-  | ref n g => simp [notRef] at hr
+  | ref n g =>
+    have e1 : (kwR == [91]) = false := by decide
+    have e2 : (kwR == [93]) = false := by decide
+    have e3 : (kwR == [60, 60]) = false := by decide
+    have e4 : (kwR == [62, 62]) = false := by decide
+    have e5 : (kwR == [123]) = false := by decide
+    have e6 : (kwR == [125]) = false := by decide
+    have hk := hD.ref { curstack := [.int n, .int g] } [] n g rfl
+    simp only [streamDialect] at hk
+    simp [ser, feedAllWith_cons, feedAllWith_nil, feedWith, push, norm, streamDialect, flushHold, heldCount, finish,
+      e1, e2, e3, e4, e5, e6, hk]
   | arr items =>
     have ho := feed_open (D := streamDialect) {} rfl [91] .a (Or.inl ⟨rfl, rfl⟩)
     simp only [clean] at hc
@@ -246,7 +254,7 @@ theorem C01_nesting (v : PObj) (hc : clean v) (hr : notRef v) :
     have e : ({ startType {} .a with curstack := (startType {} .a).curstack ++ normList items } : PState)
         = { startType {} .a with curstack := normList items } := by simp [startType]
     rw [e, feed_close_arr {} (normList items) rfl, norm]
-    simp [closed, streamDialect]
+    simp [closed, streamDialect, flushHold, heldCount, push, finish]
   | dict es =>
     have ho := feed_open (D := streamDialect) {} rfl [60, 60] .d (Or.inr ⟨rfl, rfl⟩)
     simp only [clean] at hc
@@ -256,7 +264,7 @@ theorem C01_nesting (v : PObj) (hc : clean v) (hr : notRef v) :
     have e : ({ startType {} .d with curstack := (startType {} .d).curstack ++ pairsOf es } : PState)
         = { startType {} .d with curstack := pairsOf es } := by simp [startType]
     rw [e, feed_close_dict {} es rfl hc.2.1 hc.2.2, norm]
-    simp [closed, streamDialect]
+    simp [closed, streamDialect, flushHold, heldCount, push, finish]
 
 /-- The `getobj` reader (PDFParser behind PDFDocument.getobj): on the tokens `objid gen obj <tree> endobj …`
     it returns exactly the tree's value — for EVERY clean tree, a bare `n g R` included. -/
@@ -286,9 +294,7 @@ theorem C01_getobj_nesting (objid gen : Int) (v : PObj) (hc : clean v) (more : L
 
 /-- Non-vacuity: `<< /K [ 1 7 R null (s) ] /N null >>` — two levels, a reference, a dropped entry —
     meets the hypotheses. -/
-example : clean (.dict [([75], .arr [.ref 1 7, .null, .str [115]]), ([78], .null)]) ∧
-    notRef (.dict [([75], .arr [.ref 1 7, .null, .str [115]]), ([78], .null)]) := by
-  refine ⟨?_, trivial⟩
+example : clean (.dict [([75], .arr [.ref 1 7, .null, .str [115]]), ([78], .null)]) := by
   simp only [clean, cleanEntries, cleanList, keysOf, and_self, true_and]
   exact ⟨by decide, by intro k hk; simp at hk; rcases hk with rfl | rfl <;> decide⟩
 
@@ -317,33 +323,32 @@ theorem C01_tokens (pad : List SepItem) (hpad : sepOK pad) (t : STree) (hwf : wf
     white space of every kind, comments, or NOTHING where a delimiter follows (minimal delimiters,
     e.g. `[/A/B(s)<41>]`, `<</K<41>>>`) — any generation number: reading the bytes with the tokenizer
     and the stack parser yields exactly the value, once, with no error.
-    `_partial` only because of: even hex digit count (open finding `odd-hex-digit`), and a bare
-    `n g R` as a top-level value (PDFStreamParser has no enclosing object; see `C01_getobj_*`). -/
-theorem C01_roundtrip_partial (t : STree) (hwf : wf t) (hnr : notRef (valueOf t)) :
+    A bare `n g R` is read too (PDFStreamParser holds back trailing integers).
+    `_partial` only because of the even hex digit count (open finding `odd-hex-digit`). -/
+theorem C01_roundtrip_partial (t : STree) (hwf : wf t) :
     objects (specLex (bytesOf t)) = { results := [norm (valueOf t)] } := by
   have h := C01_tokens [] (by intro i hi; cases hi) t hwf
   simp only [renderSep, List.nil_append] at h
   unfold objects
   simp only [tokVals] at h
   rw [h]
-  exact C01_nesting (valueOf t) (clean_tree t hwf) hnr
+  exact C01_nesting (valueOf t) (clean_tree t hwf)
 
 /-- …at every read-buffer size: the result does not depend on where the buffer boundaries fall. -/
-theorem C01_roundtrip_buffered_partial (b : Nat) (hb : 1 ≤ b) (t : STree) (hwf : wf t) (hnr : notRef (valueOf t)) :
+theorem C01_roundtrip_buffered_partial (b : Nat) (hb : 1 ≤ b) (t : STree) (hwf : wf t) :
     (run b (bytesOf t)).map objects = some { results := [norm (valueOf t)] } := by
-  rw [C14.C14_run_eq_spec b hb, Option.map_some, C01_roundtrip_partial t hwf hnr]
+  rw [C14.C14_run_eq_spec b hb, Option.map_some, C01_roundtrip_partial t hwf]
 
 /-- Independence of the object's offset: any white space and comments in front (so any absolute
     position, any alignment with the read buffers) leave the value read unchanged. -/
-theorem C01_offset_partial (b : Nat) (hb : 1 ≤ b) (pad : List SepItem) (hpad : sepOK pad) (t : STree) (hwf : wf t)
-    (hnr : notRef (valueOf t)) :
+theorem C01_offset_partial (b : Nat) (hb : 1 ≤ b) (pad : List SepItem) (hpad : sepOK pad) (t : STree) (hwf : wf t) :
     (run b (renderSep pad ++ bytesOf t)).map objects = some { results := [norm (valueOf t)] } := by
   have htok := C01_tokens pad hpad t hwf
   rw [C14.C14_run_eq_spec b hb, Option.map_some]
   unfold objects
   simp only [tokVals] at htok
   rw [htok]
-  exact congrArg some (C01_nesting (valueOf t) (clean_tree t hwf) hnr)
+  exact congrArg some (C01_nesting (valueOf t) (clean_tree t hwf))
 
 /-- END-TO-END for the `getobj` reader: an indirect object `n g obj <spelled tree> endobj` (any separators,
     minimal delimiters and comments included, any white space / comments in front, any buffer size)
